@@ -23,7 +23,7 @@ def universe_hash():
 
 
 def plan(tier, seed, complete=False):
-    items, zinfo = PL.plan_docs(tier, seed, complete, check="C05")
+    items, zinfo = PL.plan_docs(tier, seed, complete, check="C05", fx=700)
     return {
         "items": items, "zones": zinfo, "exhaustive": False,
         "rule": "documents of the frozen universes; position oracle over every position-carrying token; distinct = distinct token-kind sequences",
@@ -44,4 +44,4 @@ def _mon(R, pm, key, doc, toks):
 
 
 def run_items(items, job):
-    return _tok.drive(items, None, _mon)
+    return _tok.drive(items, None, _mon, job=job)
